@@ -1657,3 +1657,62 @@ def unroll_literal_loops(fn, limit=8):
         for c in ast.iter_child_nodes(n_):
             c._parent = n_
     return fn
+
+
+def normalise_endless_for(fn):
+    """in place: 'for T in itertools.cycle(E)' / 'itertools.count(..)' / 'itertools.repeat(x)' never runs out, so it reads as
+    'while True: T = <next value>; body' (its else clause, if any, is unreachable and dropped) - the exit edge a flow graph gives
+    every for loop does not exist for these"""
+    def endless(it):
+        d = dotted(it.func) if isinstance(it, ast.Call) else None
+        if d in ("itertools.cycle", "cycle", "itertools.count", "count"):
+            return True
+        return d in ("itertools.repeat", "repeat") and len(it.args) == 1 and not it.keywords
+    for n_ in ast.walk(fn):
+        for fld in ("body", "orelse", "finalbody"):
+            blk = getattr(n_, fld, None)
+            if isinstance(blk, list):
+                for k_, st in enumerate(blk):
+                    if isinstance(st, ast.For) and endless(st.iter):
+                        nxt = ast.Assign(targets=[st.target], value=ast.Call(func=ast.Name(id="next", ctx=ast.Load()), args=[st.iter], keywords=[]))
+                        w = ast.While(test=ast.Constant(value=True), body=[ast.copy_location(nxt, st)] + st.body, orelse=[])
+                        blk[k_] = ast.fix_missing_locations(ast.copy_location(w, st))
+    for n_ in ast.walk(fn):
+        for c in ast.iter_child_nodes(n_):
+            c._parent = n_
+    return fn
+
+
+def normalise_continue_else(fn):
+    """in place: inside a loop body, 'if C: A; continue' followed by the statements B reads as 'if C: A  else: B' (the continue was
+    the last statement of the branch and B is the rest of the body)"""
+    changed = True
+    while changed:
+        changed = False
+        for lp in ast.walk(fn):
+            if not isinstance(lp, (ast.For, ast.While)):
+                continue
+            stack = [lp.body]
+            while stack:
+                blk = stack.pop()
+                for k_, st in enumerate(blk):
+                    if isinstance(st, ast.If) and not st.orelse and st.body and isinstance(st.body[-1], ast.Continue) and k_ < len(blk) - 1:
+                        rest = blk[k_ + 1:]
+                        st.body = st.body[:-1] or [ast.copy_location(ast.Pass(), st)]
+                        st.orelse = rest
+                        del blk[k_ + 1:]
+                        changed = True
+                        break
+                    if isinstance(st, ast.If):
+                        # only the tail position of the loop body continues into the if's branches
+                        if k_ == len(blk) - 1:
+                            stack.append(st.body)
+                            stack.append(st.orelse)
+                if changed:
+                    break
+            if changed:
+                break
+    for n_ in ast.walk(fn):
+        for c in ast.iter_child_nodes(n_):
+            c._parent = n_
+    return fn
